@@ -202,6 +202,21 @@ def build_shared_features_map(mod: fx.GraphModule) -> Dict[fx.Node, PITFeaturesM
             for i in pred:
                 sharing_graph.remove_edge(i, n)
 
+    # a features-defining layer invoked at several call sites (weight sharing) has one set of input
+    # and one set of output channels: its call sites share the features masker, and so do the
+    # tensors it consumes at the different call sites
+    first_call = {}
+    for n in mod.graph.nodes:
+        if n.op == 'call_module' and n.meta['features_defining'] and len(n.all_input_nodes) > 0:
+            inp = n.all_input_nodes[0]
+            if n.target in first_call:
+                first_n, first_inp = first_call[n.target]
+                sharing_graph.add_edge(first_n, n)
+                if first_inp is not inp:
+                    sharing_graph.add_edge(first_inp, inp)
+            else:
+                first_call[n.target] = (n, inp)
+
     # handle the case of a forward function with multiple outputs (returned as a tuple or list) with
     # possibly independent shapes. In this case, the graph will contain a final output node that is
     # difficult to treat and we remove in this step, treating each single output independently.
